@@ -105,6 +105,14 @@ func AtoI64(s string) int64 {
 	return v
 }
 
+// Funcs is a registry that injected shim files fill from their init() functions, so that a harness can
+// reach unexported functions of other packages and still build when one of them disappears (the check then
+// drops that shim file from the overlay and carries on with the rest).
+var Funcs = map[string]any{}
+
+// Register adds a function to the registry.
+func Register(name string, f any) { Funcs[name] = f }
+
 // Harness describes one property's correspondence run.
 type Harness struct {
 	ID string
